@@ -201,7 +201,7 @@ impl Gen {
             json!({"op": "SetCodepage", "args": {"cp": cp}})
         } else if r < 80 {
             let f = *self.rng.pick(&["author", "comments", "subject", "title", "word_count"]);
-            let v = if self.rng.chance(1, 4) { json!({"absent": 0}) } else if f == "word_count" { json!({"i": self.rng.below(5)}) } else { json!({"s": cps(&format!("v{}", self.rng.below(9)))}) };
+            let v = if self.rng.chance(1, 4) { json!({"absent": 0}) } else if f == "word_count" { json!({"i": self.rng.below(5)}) } else { json!({"s": cps(&match self.rng.below(12) { 9 => "caf\u{e9}".to_string(), 10 => "\u{3042}\u{4e2d}x".to_string(), 11 => "\u{20ac}5 \u{1f600}".to_string(), k => format!("v{}", k) })}) };
             json!({"op": "SetSummary", "args": {"field": f, "value": v}})
         } else if r < 86 {
             let n = format!("s{}", self.rng.below(3));
